@@ -937,7 +937,7 @@ func main() {
 	phase("preprocessing done")
 	// ---- per program: oracles 1 and 3, encoding
 	header := "From Coq Require Import List NArith ZArith Bool.\nFrom Verif Require Import Common.GoStr C39.Model.\nImport ListNotations.\nOpen Scope Z_scope."
-	cw := vh.NewCases(a, header, "case", "mismatches", 12)
+	cw := vh.NewCases(a, header, "case", "mismatches", 18)
 	var libUnits, mainUnits []*unit
 	unitOf := map[int]*unit{}
 	var ir2 *fast.Interp
